@@ -1,19 +1,22 @@
-// C26 (sequential part): the durable queue delivers entries in append order, keeps every acknowledged and
-// not-advanced entry across a reopen, never yields bytes that were not appended, and a rejected append leaves
-// the queue unchanged.
+// C26: the durable queue delivers entries in append order, keeps every acknowledged and not-advanced entry across
+// a reopen and across a crash at any point of a later append or advance, never yields bytes that were not appended,
+// and a rejected append leaves the queue unchanged.
 //
-// Engine: opseq — every op sequence up to the depth bound is replayed from scratch on the real
+// Sequence family (engine opseq): every op sequence up to the depth bound is replayed from scratch on the real
 // pkg/durablequeue.Queue in a fresh directory and compared, step by step and by a final complete read-out, with a
 // FIFO list model written from the statement.
 //
-// The file is organised so that a crash-image engine can be added without touching the sequential part:
+// Crash family (engine verif/h/crashfs, see "crash family" below): a history writer (this binary re-executed under
+// strace) runs performHistory with BEGIN/ACK markers; every prefix / torn-write / unsynced image of the syscall log
+// is materialized and recovered by a fresh subprocess with the real Queue.Open, appended to, copied without closing,
+// read out, reopened and read out again.
 //
 //	PerformHistory(dir, cfg, ops, keepOpen)  = the "history writer": performs an op list on a directory, returns
 //	                                           the model (what was acknowledged, where the head is)
-//	CheckRecovery(dir, cfg, expect, how)     = the "recovery checker": opens the directory with a fresh Queue, reads
-//	                                           everything, compares with the expectation (exact for clean
-//	                                           histories, suffix-at-or-before-head + optional unacknowledged tail
-//	                                           for crash images)
+//	CheckRecovery(dir, cfg, expect, how)     = the clean-reopen "recovery checker": opens the directory with a fresh
+//	                                           Queue, reads everything, compares with the expectation
+//	Compare(got, Expect{Exact:false,Unacked})= the crash oracle on one read-out: suffix at or before the head +
+//	                                           optional unacknowledged tail entry as a whole
 package c26
 
 import (
@@ -1303,7 +1306,7 @@ func runCrashRecovery(dir string, items []crashItem, timeout time.Duration) (map
 	return res, t, nil
 }
 
-var repoFrameRe = regexp.MustCompile(`(?m)^(github\.com/influxdata/influxdb/v2[^\s(]*)\(`)
+var repoFrameRe = regexp.MustCompile(`(?m)^(github\.com/influxdata/influxdb/v2/[^\n]*)\([^()\n]*\)\s*$`)
 
 // deathClass turns the output of a recovery subprocess that died or hung into a short deterministic description.
 func deathClass(out string) string {
@@ -1672,13 +1675,16 @@ func TestCheck(t *testing.T) {
 	}
 	vlib.Main(t, &vlib.Check{
 		ID: "C26", Level: "model_checking", QuickBudgetS: 45, ThoroughBudgetS: 780,
-		Rule: "every op sequence of length <= d (quick d=4; thorough d=5, plus every sequence of length exactly 6 over the 9-op alphabet without the two delivery-neutral ops purgeNone and growMax) over the 11-op alphabet {append 1 B, append 9 B, append segment-filling 40 B, Queue.Advance, scanner Next x1 + Advance, scanner Next-to-end + Advance, reopen (Close + fresh Queue + Open), PurgeOlderThan(nothing old), PurgeOlderThan(all segments aged), SetMaxSize(80 = smallest legal), SetMaxSize(1024)} with max segment size 40 (rollover after <= 3 small entries), each replayed from scratch on the real Queue in a fresh directory, times 4 complete read-outs {live|after reopen} x {Current+Advance | scanner}; oracle = FIFO list model: Current after every op is the model head (or an error when empty), scanner output is a non-empty prefix of the remaining list, the final read-out equals the remaining list exactly, a rejected Append never shows up, an accepted Append never leaves more not-advanced payload than the max size, an Append is not rejected while the segment files plus the entry (+16 bytes framing) fit the max size. State = (sequence, read-out) node of the exploration tree, transition = one executed op, trace = one sequence validated against the implementation. Non-trivial = sequences containing at least one accepted append (distinct by construction). Crash images are NOT part of this run (added separately).",
+		Rule: "every op sequence of length <= d (quick d=4; thorough d=5, plus every sequence of length exactly 6 over the 9-op alphabet without the two delivery-neutral ops purgeNone and growMax) over the 11-op alphabet {append 1 B, append 9 B, append segment-filling 40 B, Queue.Advance, scanner Next x1 + Advance, scanner Next-to-end + Advance, reopen (Close + fresh Queue + Open), PurgeOlderThan(nothing old), PurgeOlderThan(all segments aged), SetMaxSize(80 = smallest legal), SetMaxSize(1024)} with max segment size 40 (rollover after <= 3 small entries), each replayed from scratch on the real Queue in a fresh directory, times 4 complete read-outs {live|after reopen} x {Current+Advance | scanner}; oracle = FIFO list model: Current after every op is the model head (or an error when empty), scanner output is a non-empty prefix of the remaining list, the final read-out equals the remaining list exactly, a rejected Append never shows up, an accepted Append never leaves more not-advanced payload than the max size, an Append is not rejected while the segment files plus the entry (+16 bytes framing) fit the max size. State = (sequence, read-out) node of the exploration tree, transition = one executed op, trace = one sequence validated against the implementation. Non-trivial = sequences containing at least one accepted append (distinct by construction). CRASH FAMILY (additional clause, engine crashfs; counted under the crash_* coverage keys and the crash:* outcomes, not under states/transitions/traces): histories over {append 1 B, append 9 B, append 40 B, Queue.Advance, scanner Next x1 + Advance, scanner Next-to-end + Advance, reopen} performed by a writer subprocess on the real Queue (max segment size 40) under strace with BEGIN/ACK markers around the initial Open and every op; quick: 4 hand-picked histories of 5-8 ops (append into fresh/rolled segment, length word equal to a record boundary, segment roll, Advance footer writes, trim of a full single segment = addSegment + remove, scanner trim with a tail segment, reopen), every cut; thorough: 7 hand-picked histories (every cut) plus EVERY sequence of length 0..3 over the 6-op alphabet without scanner-x1 (259 recordings; of each only the cuts inside or after its last op, so every (history prefix, cut) is evaluated once). Per history every prefix of the syscall-level event list (P), every torn length 1..n-1 of the write in flight (T; all writes are <= 56 bytes, no subsampling), and for the segment files (sync class [0-9]*) the images with un-fsynced data dropped or its last write torn (U); directory operations in program order; images deduplicated by (content, acknowledged ops, op in flight). One evaluation = one (image, acknowledgement context, read-out mode in {Current+Advance, scanner}) recovered in a fresh subprocess: real Queue.Open on the image, one more Append (must be accepted), directory copied without closing (second process death), complete read-out, then Open of the copy, complete read-out, one more Append, read-out. Crash oracle: each complete read-out = Appended[k:] for some k <= model head (k <= head + n while an Advance/scanner-Advance over n entries is in flight), optionally followed by the entry of the Append in flight as a whole, followed by the entry appended after the recovery; nothing else; Open must succeed. Non-trivial crash case = first read-out holds at least one entry of the history.",
 		Assumptions: []string{
 			"entries are non-empty (the scanner skips zero-length records by design)",
 			"Queue.Advance / scanner on a queue that is empty by the model is executed, but only its effect on later deliveries is judged (the statement does not define it)",
 			"a reopen is a clean Close followed by a new Queue object with a fresh SharedCount (process restart); the configured max size is carried over",
 			"after a clean reopen the read-out must start exactly at the model head (no redelivery); the statement's at-least-once latitude is reserved for crash images (Expect.Exact=false)",
 			"PurgeOlderThan may drop any prefix of the remaining list when all segments are older than the cutoff, and nothing when none is",
+			"crash family: ordered-metadata crash model (creates/unlinks persist in program order; data of segment files may be lost back to the last fsync = U images; a write in flight may persist any byte prefix = T images, byte-granular); event order is syscall completion order of the single writer goroutine",
+			"crash family: a lost acknowledged Advance (redelivery from an earlier position) is allowed by the statement (at-least-once), so a missing fsync in advanceTo is by design not a violation; footer positions stay below 256 (one significant byte) in all histories",
+			"crash family: a Queue.Open that fails on a crash image is reported also when no acknowledged, not-advanced entry exists (signature feature undelivered-entries=none): the queue then cannot accept the further append the oracle requires",
 			"which appends the size limit must reject is judged only by payload bytes (accepted => not-advanced payload <= max size), and which it must accept only by the bytes the segment files really occupy (files + entry + 16 <= max size => accepted); the exact accounting of headers/footers in between is not part of the statement",
 		},
 		Run: func(c *vlib.Ctx) {
